@@ -569,9 +569,10 @@ func markdownEscape(w strWriter, s string, allowHTML bool) error {
 		case '\\', '`', '*', '_', '{', '}', '[', ']', '(', ')', '#', '+', '-', '=', '.', '!', '|', '>', '~':
 			esc = slash
 		case '&':
-			if !allowHTML {
-				esc = slash
+			if allowHTML {
+				continue
 			}
+			esc = slash
 		case ' ', '\t':
 			if 0 < i && i < len(s)-1 {
 				if c := s[i+1]; c != ' ' && c != '\t' {
